@@ -133,7 +133,7 @@ func checkAlias(c aliasCase) evid.Outcome {
 	}
 	// output aliasing at frame level
 	if p, ok := v.(*lorawan.PHYPayload); ok {
-		for _, enc := range []func() ([]byte, error){p.MarshalBinary, p.MarshalText} {
+		for _, enc := range []func() ([]byte, error){func() ([]byte, error) { return p.MarshalBinary() }, func() ([]byte, error) { return p.MarshalText() }} {
 			out, err := enc()
 			if err != nil {
 				continue
